@@ -289,7 +289,8 @@ fn run(job_path: &str, out_path: &str) -> i32 {
                     out.emit(&json!({"script": sid, "k": k, "cmd": cmd, "res": res, "obs": obs, "ms": [t1, t2 - t1]}));
                 }
                 Err(p) => {
-                    out.emit(&json!({"script": sid, "k": k, "cmd": cmd, "res": {"panic": p}}));
+                    let at = PANIC_AT.lock().map(|g| g.clone()).unwrap_or_default();
+                    out.emit(&json!({"script": sid, "k": k, "cmd": cmd, "res": {"panic": p, "at": at}}));
                     dead = true;
                     break;
                 }
@@ -397,7 +398,17 @@ fn selftest(job_path: &str, out_path: &str) -> i32 {
     0
 }
 
+static PANIC_AT: std::sync::Mutex<String> = std::sync::Mutex::new(String::new());
+
 fn main() {
+    // remember where the code under test panicked (the payload alone has no location)
+    std::panic::set_hook(Box::new(|info| {
+        if let Some(l) = info.location() {
+            if let Ok(mut g) = PANIC_AT.lock() {
+                *g = format!("{}:{}", l.file(), l.line());
+            }
+        }
+    }));
     let a: Vec<String> = std::env::args().collect();
     if a.len() < 4 {
         tool_error("usage: c14 run|dr7|selftest <in> <out>");
